@@ -341,6 +341,18 @@ def run_readback(ctx):
         rb("strsub_with_fragment", lambda: base.with_fragment(ts), lambda u: u.fragment, t)
         rb("strsub_with_name", lambda: base.with_name(ts), lambda u: u.name, t, slashfree)
         rb("strsub_div", lambda: base / ts, lambda u: u.name, t, slashfree)
+        # string-form queries (text that is READ as a query: '+', '&', '=' and escapes are live): nothing to read back, but every
+        # decoded view of the derived object must still be the decoding of its own raw query
+        if len(t) < 2000:
+            for entry, fn in (("with_query_str", lambda: base.with_query(t)), ("extend_query_str", lambda: base.extend_query(t)), ("update_query_str", lambda: base.update_query(t)),
+                              ("with_query_str_plus", lambda: base.with_query(f"a+{t}=c+d&{t}+x")), ("build_query_string", lambda: URL.build(scheme="http", host="h", query_string=t)),
+                              ("mod_str", lambda: base % f"k+1={t}+")):
+                u = guarded(fn)
+                ctx.ev(None if triv else (entry, cls, "exc" if is_exc(u) else "ok"))
+                if is_exc(u):
+                    continue
+                ctx.count("derived_str_query_views")
+                check_views(ctx, u, {"entry": entry, "text": t, "derived": True}, None)
         if i % 1201 == 0:
             ctx.sample({"entry": "with_user", "text": t})
 
@@ -365,6 +377,13 @@ def run(ctx):
                 got = guarded(acc, u) if not is_exc(u) else u
                 if got != t:
                     ctx.fail("readback_mismatch", {"entry": entry, "text": t}, f"{entry}: supplied {t!r}, reads back {got!r}")
+            if isinstance(t, str) and str(c.get("entry", "")).endswith(("_str", "_str_plus", "query_string")):
+                for entry, fn in (("with_query_str", lambda: base.with_query(t)), ("extend_query_str", lambda: base.extend_query(t)), ("update_query_str", lambda: base.update_query(t)),
+                                  ("with_query_str_plus", lambda: base.with_query(f"a+{t}=c+d&{t}+x")), ("build_query_string", lambda: URL.build(scheme="http", host="h", query_string=t)),
+                                  ("mod_str", lambda: base % f"k+1={t}+")):
+                    u = guarded(fn)
+                    if not is_exc(u):
+                        check_views(ctx, u, {"entry": entry, "text": t, "derived": True}, ("replay", entry))
         return
     {"pairs": run_pairs, "runs": run_runs, "readback": run_readback}[ctx.part](ctx)
 
